@@ -28,6 +28,9 @@ type ClosureOpts struct {
 	// MaxStep caps the clock advance per round (0 = follow RequeueAfter): keeps the driver from sleeping through
 	// a long canary duration when only the short-term reaction is of interest.
 	MaxStep time.Duration
+	// StartDelay: let this much time pass before the first round (e.g. so that a canary duration has elapsed when the
+	// controllers first look).
+	StartDelay time.Duration
 	// Resume: first remove the rolling-update-paused / rollout-frozen annotations (a legal user action).
 	Resume bool
 	// SkipJumps: do not perform the +3/+6/+11 min persistence jumps.
@@ -192,6 +195,9 @@ func Closure(t *testing.T, sc *Scenario, s *State, o ClosureOpts) ClosureResult 
 		o.MaxRounds = 12 + 6*len(s.Nodes()) + 4*len(s.Pods())
 	}
 	InBubble(t, s.Now, func() {
+		if o.StartDelay > 0 {
+			time.Sleep(o.StartDelay)
+		}
 		l := NewLive(s, sc.Cfg)
 		cur := s
 		if o.Resume {
